@@ -62,5 +62,5 @@ MutConservation == Done =>
    /\ Rng(FlatFwd(FC)) \cap Rng(FlatCons(FC)) = {}
    /\ StrictlyAscending(FlatFwd(FC) \o FlatTail(FC))
 MutProgress == Done => \A i \in 1..Len(Res.calls) : Res.calls[i].stop > Res.calls[i].from \/ Res.calls[i].err = "eof"
-Emit == Done => PrintT("CASE " \o ToJson([mode |-> "mut", lines |-> L, calls |-> FinalCallsOf(Res), ndump |-> 0]))
+Emit == Done => PrintT("CASE " \o ToJson([mode |-> "mut", lines |-> L, calls |-> FinalCallsOf(Res), ndump |-> 0, pp |-> PP(FinalCallsOf(Res))]))
 =============================================================================
